@@ -73,11 +73,26 @@ struct Hist : HistBase {
     const std::string& c = t[0];
     if (c == "create") {
       int i = atoi(t[1].c_str()); bool ok = t[2] == "ok"; int lib = t.size() > 3 ? atoi(t[3].c_str()) : 0;
-      bool r;
-      if constexpr (IsVsbx) r = sb[i]->create_sandbox(&g_libs[lib], ok, i);
-      else { (void)ok; (void)lib; r = sb[i]->create_sandbox(); }
-      if (r) live[i] = true;
-      return std::string("ok ") + (r ? "true" : "false");
+      if constexpr (IsVsbx) return op({ "createat", t[1], t[1], ok ? "ok" : "fail", std::to_string(lib) });   // object i in its own slot i
+      else {
+        (void)ok; (void)lib;
+        bool r = sb[i]->create_sandbox();
+        if (r) live[i] = true;
+        return std::string("ok ") + (r ? "true" : "false");
+      }
+    }
+    if (c == "createat") {
+      // object i in address slot r; a backend cannot map a region that is in use (the model says abort, nothing happens)
+      int i = atoi(t[1].c_str()); int r = atoi(t[2].c_str()); bool ok = t[3] == "ok"; int lib = t.size() > 4 ? atoi(t[4].c_str()) : 0;
+      if constexpr (IsVsbx) {
+        if (vsbx::g_slot_used[r]) {
+          if (sb[i]->get_sandbox_impl()->mapped) { sb[i]->create_sandbox(&g_libs[lib], ok, r); return "unreachable"; } // not NOT_CREATED: rlbox aborts first
+          return "abort";
+        }
+        bool res = sb[i]->create_sandbox(&g_libs[lib], ok, r);
+        if (res) live[i] = true;
+        return std::string("ok ") + (res ? "true" : "false");
+      } else return "na";
     }
     if (c == "destroy") { int i = atoi(t[1].c_str()); sb[i]->destroy_sandbox(); live[i] = false; return "ok"; }
     if (c == "malloc") {
@@ -201,6 +216,7 @@ int main()
     if (t[0] == "hnew") {
       if (g_h) { g_h->teardown(); g_h.release(); } // the old world is leaked deliberately
       g_dead = false;
+      vsbx::g_keep_stale_fields = t.size() > 2 && t[2] == "stale";
       if (t[1] == "vsbx2") g_h.reset(new Hist<SbxH2, true>());
       else if (t[1] == "vsbx8") g_h.reset(new Hist<SbxH8, true>());
       else g_h.reset(new Hist<rlbox::rlbox_noop_sandbox, false>());
